@@ -202,6 +202,17 @@ def run(tier="quick", seed=0, replay=None):
             chk.stat("metric_harness_error:" + name)
         if f:
             chk.violation(f"metric:{name}", f"river.metrics.{name} as loss: {f}", {"metric": name})
+    # plain callables (not river metrics) must pass through validate_loss_function untouched
+    from ixai.utils.validators.loss import validate_loss_function as _vlf
+    for fn in (lambda y_true, y_prediction: 0.0, abs, max):
+        chk.case({"plain_callable": repr(fn)[:40]}, nontrivial=True, sample=False)
+        try:
+            out = _vlf(fn)
+        except Exception as ex:
+            chk.violation("plain-callable", f"validate_loss_function raised {type(ex).__name__} on a plain callable", {"callable": repr(fn)})
+            continue
+        if out is not fn:
+            chk.tie_failure("correspondence:validate_loss_function", f"a plain callable {fn!r} is not returned unchanged (got {out!r})")
     reqs, impls = exact_tie(chk, chk.count(40, 400))
     if core.driver_available():
         try:
